@@ -7,6 +7,7 @@ import (
 	"encoding/json"
 	"fmt"
 	"os"
+	"strings"
 
 	metav1 "k8s.io/apimachinery/pkg/apis/meta/v1"
 	"k8s.io/apimachinery/pkg/runtime"
@@ -23,6 +24,9 @@ import (
 type Case struct {
 	Rule  map[string]interface{}   `json:"rule"`
 	Attrs []map[string]interface{} `json:"attrs"`
+	// Old, when present: the rule is submitted as an UPDATE of an object that was admitted earlier with rule Old (the
+	// stored, normalised form of Old is what the plugin sees as the old object)
+	Old map[string]interface{} `json:"old,omitempty"`
 }
 
 var (
@@ -30,11 +34,27 @@ var (
 	plugin admission.MutationInterface
 )
 
-func admit(r proxyv1alpha1.DispatchPolicyRule) (proxyv1alpha1.DispatchPolicyRule, error) {
-	uc := &proxyv1alpha1.UpstreamCluster{ObjectMeta: metav1.ObjectMeta{Name: "c"},
+func clusterOf(r proxyv1alpha1.DispatchPolicyRule) *proxyv1alpha1.UpstreamCluster {
+	return &proxyv1alpha1.UpstreamCluster{ObjectMeta: metav1.ObjectMeta{Name: "c"},
 		Spec: proxyv1alpha1.UpstreamClusterSpec{DispatchPolicies: []proxyv1alpha1.DispatchPolicy{{Rules: []proxyv1alpha1.DispatchPolicyRule{r}}}}}
-	attrs := admission.NewAttributesRecord(uc, nil, proxyv1alpha1.SchemeGroupVersion.WithKind("UpstreamCluster"), "", "c",
-		proxyv1alpha1.SchemeGroupVersion.WithResource("upstreamclusters"), "", admission.Create, &metav1.CreateOptions{}, false, nil)
+}
+
+func admit(r proxyv1alpha1.DispatchPolicyRule) (proxyv1alpha1.DispatchPolicyRule, error) {
+	return admitWith(r, nil)
+}
+
+// admitWith admits rule r; with old != nil it is an UPDATE of the stored object holding *old (what the API server does on
+// a read-modify-write), else a CREATE.
+func admitWith(r proxyv1alpha1.DispatchPolicyRule, old *proxyv1alpha1.DispatchPolicyRule) (proxyv1alpha1.DispatchPolicyRule, error) {
+	uc := clusterOf(r)
+	var oldObj runtime.Object
+	op := admission.Create
+	var opts runtime.Object = &metav1.CreateOptions{}
+	if old != nil {
+		oldObj, op, opts = clusterOf(*old), admission.Update, &metav1.UpdateOptions{}
+	}
+	attrs := admission.NewAttributesRecord(uc, oldObj, proxyv1alpha1.SchemeGroupVersion.WithKind("UpstreamCluster"), "", "c",
+		proxyv1alpha1.SchemeGroupVersion.WithResource("upstreamclusters"), "", op, opts, false, nil)
 	if err := plugin.Admit(context.Background(), attrs, admission.NewObjectInterfacesFromScheme(scheme)); err != nil {
 		return r, err
 	}
@@ -79,9 +99,17 @@ func run(c *rig.Ctx, cs Case, record bool) bool {
 	var norm, norm2 proxyv1alpha1.DispatchPolicyRule
 	var err error
 	msg, panicked := rig.Recover(func() {
-		norm, err = admit(rule)
+		var stored *proxyv1alpha1.DispatchPolicyRule
+		if cs.Old != nil {
+			var o proxyv1alpha1.DispatchPolicyRule
+			if o, err = admit(wire(cs.Old)); err != nil {
+				return
+			}
+			stored = &o
+		}
+		norm, err = admitWith(rule, stored)
 		if err == nil {
-			norm2, err = admit(norm)
+			norm2, err = admitWith(norm, &norm)
 		}
 	})
 	if panicked {
@@ -154,11 +182,57 @@ func shrink(c *rig.Ctx, cs Case) Case {
 	return cs
 }
 
+// editRule: a read-modify-write of a stored rule — one list is edited in a way a careless comparison of lists would not see
+// (an empty-string entry added or dropped, an entry split at a comma or two entries joined by one, a duplicate), or
+// replaced, or nothing changes at all.
+func editRule(c *rig.Ctx, r proxyv1alpha1.DispatchPolicyRule, raw bool) proxyv1alpha1.DispatchPolicyRule {
+	rnd := c.Rng
+	lists := []*[]string{&r.Verbs, &r.APIGroups, &r.Resources, &r.ResourceNames, &r.Users, &r.UserGroups, &r.NonResourceURLs}
+	for n := 1 + rnd.Intn(2); n > 0; n-- {
+		l := lists[rnd.Intn(len(lists))]
+		cur := append([]string{}, (*l)...)
+		switch rnd.Intn(8) {
+		case 0: // drop empty entries / make the list absent
+			out := []string{}
+			for _, e := range cur {
+				if e != "" {
+					out = append(out, e)
+				}
+			}
+			cur = out
+		case 1:
+			cur = append(cur, "")
+		case 2: // split every entry at its commas
+			out := []string{}
+			for _, e := range cur {
+				out = append(out, strings.Split(e, ",")...)
+			}
+			cur = out
+		case 3: // join all entries into one
+			if len(cur) > 1 {
+				cur = []string{strings.Join(cur, ",")}
+			}
+		case 4:
+			if len(cur) > 0 {
+				cur = append(cur, cur[rnd.Intn(len(cur))])
+			}
+		case 5:
+			cur = mg.List(rnd, raw)
+		case 6:
+			if len(cur) > 0 {
+				cur[rnd.Intn(len(cur))] = mg.Entry(rnd, raw)
+			}
+		}
+		*l = cur
+	}
+	return r
+}
+
 func main() {
 	proxyv1alpha1.AddToScheme(scheme)
 	plugin = upstreamclusteradmission.NewUpstreamClusterPlugin().(admission.MutationInterface)
 	rig.Main("C17", func(c *rig.Ctx) {
-		c.SetRule("a dispatch rule (8 fields; lists of 0-4 entries from the colliding universe of C01 or raw bytes; mixes of '*', '-x', 'x', '', duplicates) is admitted by the real plugin (Admit) and matched by the real RuleMatches against 8 request tuples (5 derived from the rule's own entries so that rules match often, 3 independent) before and after; distinct = distinct canonical (rule, requests); non-trivial = some field of the rule changes under normalisation")
+		c.SetRule("a dispatch rule (8 fields; lists of 0-4 entries from the colliding universe of C01 or raw bytes; mixes of '*', '-x', 'x', '', duplicates) is admitted by the real plugin (Admit) and matched by the real RuleMatches against 8 request tuples (5 derived from the rule's own entries so that rules match often, 3 independent) before and after; a third of the rules is also submitted as an UPDATE (read-modify-write edits of a stored rule: empty-string entries added/dropped, entries split at or joined by commas, duplicates, replacements) with the stored object as the old one; distinct = distinct canonical (rule, requests); non-trivial = some field of the rule changes under normalisation")
 		if c.Replay != "" {
 			var cs Case
 			if err := c.LoadReplay(&cs); err != nil {
@@ -200,6 +274,39 @@ func main() {
 					run(c, shrink(c, cs), true)
 				} else {
 					run(c, cs, true)
+				}
+			}
+			// the same through an UPDATE: an earlier version is admitted and stored, then a read-modify-write of the STORED rule
+			// (or an unrelated new rule) is submitted with the stored object as the old one
+			if i%3 == 0 {
+				old := rule
+				if c.Rng.Intn(3) == 0 { // entries holding commas, so that splitting/joining matters
+					old.Users = append(append([]string{}, old.Users...), rig.Pick(c.Rng, []string{"ops,-root", "a,b", "-a,-b", ","}))
+				}
+				stored, err := admit(old)
+				if err != nil {
+					continue
+				}
+				next := editRule(c, stored, raw)
+				if c.Rng.Intn(5) == 0 {
+					next = mg.Rule(c.Rng, raw)
+				}
+				us := Case{Rule: mg.RuleJSON(next), Attrs: []map[string]interface{}{}, Old: mg.RuleJSON(old)}
+				for j := 0; j < 6; j++ {
+					if j < 4 {
+						us.Attrs = append(us.Attrs, mg.AttrsFor(c.Rng, next, raw).JSON())
+					} else {
+						us.Attrs = append(us.Attrs, mg.AttrsFor(c.Rng, stored, raw).JSON())
+					}
+				}
+				c.Case(rig.Canon(us), true, "update", nil)
+				c.Trace()
+				if !run(c, us, false) {
+					if c.NFailures() < 12 {
+						run(c, shrink(c, us), true)
+					} else {
+						run(c, us, true)
+					}
 				}
 			}
 		}
